@@ -2,7 +2,7 @@
    ExtrOcamlBasic only. *)
 From V.lib Require Import Base.
 From V.c07 Require Import C07Model C07Spec C07Aes.
-From V.c06 Require Import C06Model C06InitModel C06SencModel C06TrexModel C06TimingModel C06SinfModel C06MultiModel C06FixedModel.
+From V.c06 Require Import C06Model C06InitModel C06SencModel C06TrexModel C06TimingModel C06SinfModel C06MultiModel C06FixedModel C06TrafTimingModel.
 Require Import ExtrOcamlBasic.
 Separate Extraction
   ssp scheme tkind tbox mchild frag
@@ -15,5 +15,6 @@ Separate Extraction
   tsample trun_t tfhd_t trex_t add_sample_defaults fragment_meta trun_encode_body trun_decode_body set_data_offset
   protect_entry protect_entry_bytes unprotect_entry_bytes sinf_decode sinf_d children_of box_type box_payload be be_bytes
   xtraf xchild xfrag tinfo decrypt_multi xmoof_size xbox_size
+  traf_meta total_dur
   vfixed afixed vfixed_decode vfixed_encode afixed_decode afixed_encode unprotect_entry_typed
   Z.of_N.  (* Z.of_N only so that BinNums.coq_Z exists for ocaml/vx.ml *)
